@@ -352,3 +352,23 @@ pub fn gen_c09t(tier: Tier, seed: u64) -> Case {
     c.fault = Fault::Power { points: Some(vec![]), variant: 0, vseed: seed };
     c
 }
+
+/// C17 (THR part): dropping the last handle while fjall's workers are slow to react
+pub fn gen_c17t(_tier: Tier, seed: u64) -> Case {
+    let mut r = Rng::stream(seed, "workload");
+    let mut g = G::new(&mut r, 1, 2, DbKind::Plain, false);
+    tiny_opts(&mut g);
+    g.cfg.workers = g.r.range(1, 3) as usize;
+    g.sizes = vec![8, 100];
+    let program = setup(&mut g, 1, 1);
+    let mut ops = vec![];
+    for _ in 0..g.r.range(1, 4) {
+        ops.push(Op::Insert { ks: 0, key: g.key(), val: g.val() });
+        if g.r.chance(1, 3) {
+            ops.push(Op::Rotate { ks: 0 });
+        }
+    }
+    g.cfg.starve_on_drop = *g.r.pick(&[0u32, 50, 1100, 1100, 1500]);
+    let class = format!("thr-drop-w{}-starve{}", g.cfg.workers, g.cfg.starve_on_drop);
+    thr_case("C17", seed, &g, program, vec![ops], class)
+}
